@@ -33,6 +33,14 @@ ABSTRACT = {"Sequence": collections.abc.Sequence, "Mapping": collections.abc.Map
 
 # -------------------------------------------------------------------------------- expressions
 
+
+def _safe_eq(a, b):
+    """equality that treats a raising comparison (hostile values) as 'not equal'"""
+    try:
+        return bool(a == b)
+    except Exception:
+        return False
+
 def _cons_kw(cons):
     return ", ".join(f"{k}={v}" for k, v in cons)
 
@@ -262,7 +270,7 @@ def conforms(spec, v, w=NOWAIVE, why=None, _depth=0):
             if ref_constraint("const", c, v):
                 return True
         # several literal values form an enum (membership by ==)
-        if len(vals) > 1 and any(v == c for c in vals):
+        if len(vals) > 1 and any(_safe_eq(v, c) for c in vals):
             return True
         return no(f"not-literal: {v!r} is not one of the literals {spec[1]}")
     if k == "op":
@@ -293,7 +301,7 @@ def conforms(spec, v, w=NOWAIVE, why=None, _depth=0):
             if default is not None:
                 # declared defaults are trusted
                 try:
-                    if val == ev(default) and type(val) is type(ev(default)):
+                    if _safe_eq(val, ev(default)) and type(val) is type(ev(default)):
                         continue
                 except Exception:
                     pass
